@@ -172,7 +172,7 @@ def gen_case(rng, i):
                      for _ in range(d)] for _ in range(b)]
         else:
             acts = [[mean[r][j] + rng.gauss(0, 1.0) for j in range(d)] for r in range(b)]
-        c.update(k=k, d=d, full_std=full, use_expln=expln, squash=squash, log_std=ls, latent=latent, mean=mean, actions=acts,
+        c.update(k=k, d=d, full_std=full, use_expln=expln, squash=squash, learn_features=rng.random() < 0.4, log_std=ls, latent=latent, mean=mean, actions=acts,
                  epsilon=rng.choice([1e-6, 1e-6, 1e-4]))
     return c
 
@@ -511,7 +511,7 @@ def run_gsde(c, out):
     th, D = _imports()
     k, d, b, eps = c["k"], c["d"], c["b"], c["epsilon"]
     full, expln, squash = c["full_std"], c["use_expln"], c["squash"]
-    dist = D.StateDependentNoiseDistribution(d, full_std=full, use_expln=expln, squash_output=squash, epsilon=eps)
+    dist = D.StateDependentNoiseDistribution(d, full_std=full, use_expln=expln, squash_output=squash, learn_features=c.get("learn_features", False), epsilon=eps)
     dist.proba_distribution_net(latent_dim=k)
     ls_t, lat_t, mean_t, act_t = t64(th, c["log_std"]), t64(th, c["latent"]), t64(th, c["mean"]), t64(th, c["actions"])
     std = dist.get_std(ls_t)
@@ -812,6 +812,79 @@ def run_integrals(out):
         out.oracle("gsde-squashed-density-integrates-to-one", 1.0, float((sd.log_prob(a).exp() * da).sum()), rel=2e-4)
 
 
+
+# ---------------------------------------------------------------- round 4: factory, layer constructors, KL, float32, gSDE options
+def run_api_audit(out, rng):
+    th, D = _imports()
+    import numpy as np
+    from gymnasium import spaces
+
+    # make_proba_distribution: space type -> distribution class / sizes; rejected inputs
+    cases = [(spaces.Box(-1, 1, (3,), dtype=np.float32), False, {}, D.DiagGaussianDistribution, ("action_dim", 3)),
+             (spaces.Box(-1, 1, (2,), dtype=np.float32), True, {"squash_output": True, "use_expln": True}, D.StateDependentNoiseDistribution, ("action_dim", 2)),
+             (spaces.Discrete(5), False, {}, D.CategoricalDistribution, ("action_dim", 5)),
+             (spaces.MultiDiscrete([2, 4, 3]), False, {}, D.MultiCategoricalDistribution, ("action_dims", [2, 4, 3])),
+             (spaces.MultiBinary(4), False, {}, D.BernoulliDistribution, ("action_dims", 4))]
+    for sp, sde, kw, cls, (attr, val) in cases:
+        d = D.make_proba_distribution(sp, use_sde=sde, dist_kwargs=kw or None)
+        got = getattr(d, attr, None)
+        got = [int(x) for x in got] if isinstance(val, list) else got
+        out.check(type(d) is cls and got == val, "oracle-factory-wrong-distribution", f"make_proba_distribution({sp}, use_sde={sde}) -> {type(d).__name__} with {attr}={got}, expected {cls.__name__} {val}")
+        if kw:
+            out.check(d.use_expln is True and d.bijector is not None, "oracle-factory-drops-dist-kwargs", "dist_kwargs were not passed to the distribution")
+    for bad, exc in ((spaces.MultiBinary([2, 2]), AssertionError), (spaces.Dict({"a": spaces.Discrete(2)}), NotImplementedError)):
+        try:
+            D.make_proba_distribution(bad)
+            out.check(False, "oracle-factory-accepts-unsupported-space", f"make_proba_distribution({bad}) did not raise")
+        except exc:
+            out.checks += 1
+    # proba_distribution_net: output sizes and log_std initialisation
+    lat = 5
+    m, ls = D.DiagGaussianDistribution(3).proba_distribution_net(lat, log_std_init=-0.5)
+    out.check(m.in_features == lat and m.out_features == 3 and tuple(ls.shape) == (3,) and bool((ls == -0.5).all()) and ls.requires_grad, "oracle-net-gaussian", "DiagGaussian layer / log_std parameter have wrong sizes or initial value")
+    out.check(D.CategoricalDistribution(4).proba_distribution_net(lat).out_features == 4, "oracle-net-categorical", "Categorical logits layer size")
+    out.check(D.MultiCategoricalDistribution([2, 3, 4]).proba_distribution_net(lat).out_features == 9, "oracle-net-multicategorical", "MultiCategorical logits layer must have sum(action_dims) outputs")
+    out.check(D.BernoulliDistribution(6).proba_distribution_net(lat).out_features == 6, "oracle-net-bernoulli", "Bernoulli logits layer size")
+    for full in (True, False):
+        g = D.StateDependentNoiseDistribution(2, full_std=full, learn_features=rng.random() < 0.5)
+        mnet, lsd = g.proba_distribution_net(latent_dim=lat, log_std_init=-1.0, latent_sde_dim=3)
+        ok = mnet.in_features == lat and mnet.out_features == 2 and tuple(lsd.shape) == ((3, 2) if full else (3, 1)) and bool((lsd == -1.0).all()) and g.latent_sde_dim == 3
+        ok = ok and tuple(g.exploration_mat.shape) == (3, 2) and tuple(g.get_std(lsd).shape) == (3, 2)
+        out.check(ok, "oracle-net-gsde", f"gSDE layers with a separate latent_sde_dim (full_std={full}) have wrong shapes")
+        # a separate sde latent: log_prob at the mode equals the Gaussian normaliser with variance latent^2 . std^2 + eps
+        x = t64(th, [[0.5, -1.0, 2.0]])
+        mean = t64(th, [[0.1, -0.2]])
+        lsd64 = lsd.detach().double()
+        g.sample_weights(lsd64, batch_size=1)
+        g.proba_distribution(mean, lsd64, x)
+        var = sum(v * v for v in (0.5, -1.0, 2.0)) * math.exp(-1.0) ** 2 + 1e-6
+        out.oracle("gsde-separate-latent-logprob", 2 * (-0.5 * math.log(2 * math.pi * var)), float(g.log_prob(g.mode())))
+    # kl_divergence against the closed forms
+    p_, q_ = D.DiagGaussianDistribution(2), D.DiagGaussianDistribution(2)
+    mp, lp_, mq, lq = [[0.3, -1.0]], [-0.5, 0.2], [[-0.2, 0.4]], [0.1, -0.3]
+    p_.proba_distribution(t64(th, mp), t64(th, lp_))
+    q_.proba_distribution(t64(th, mq), t64(th, lq))
+    want = sum(lq[j] - lp_[j] + (math.exp(2 * lp_[j]) + (mp[0][j] - mq[0][j]) ** 2) / (2 * math.exp(2 * lq[j])) - 0.5 for j in range(2))
+    out.oracle("kl-gaussian", want, float(D.kl_divergence(p_, q_).reshape(-1)[0]))
+    lp1, lq1 = [0.5, -1.0, 2.0], [0.0, 0.3, -0.7]
+    pc, qc = D.CategoricalDistribution(3).proba_distribution(t64(th, [lp1])), D.CategoricalDistribution(3).proba_distribution(t64(th, [lq1]))
+    zp, zq = o_lse(lp1), o_lse(lq1)
+    out.oracle("kl-categorical", sum(math.exp(a - zp) * ((a - zp) - (b_ - zq)) for a, b_ in zip(lp1, lq1)), float(D.kl_divergence(pc, qc)[0]))
+    pm, qm = D.MultiCategoricalDistribution(np.array([3, 3])).proba_distribution(t64(th, [lp1 + lq1])), D.MultiCategoricalDistribution([3, 3]).proba_distribution(t64(th, [lq1 + lp1]))
+    k1 = sum(math.exp(a - zp) * ((a - zp) - (b_ - zq)) for a, b_ in zip(lp1, lq1))
+    k2 = sum(math.exp(a - zq) * ((a - zq) - (b_ - zp)) for a, b_ in zip(lq1, lp1))
+    out.oracle("kl-multicategorical", k1 + k2, float(D.kl_divergence(pm, qm)[0]))
+    # float32 parameters (what the policies pass): same numbers within float32 accuracy
+    m32, l32 = th.tensor([[0.3, -1.0]], dtype=th.float32), th.tensor([-0.5, 0.2], dtype=th.float32)
+    a32 = th.tensor([[0.1, 0.5]], dtype=th.float32)
+    for name, dist, f in (("gauss", D.DiagGaussianDistribution(2), lambda a: sum(o_normal(mu, math.exp(s_), x) for mu, s_, x in zip([0.3, -1.0], [-0.5, 0.2], a))),
+                          ("squashed", D.SquashedDiagGaussianDistribution(2), lambda a: sum(o_normal(mu, math.exp(s_), math.atanh(x)) - math.log(1 - x * x + 1e-6) for mu, s_, x in zip([0.3, -1.0], [-0.5, 0.2], a)))):
+        dist.proba_distribution(m32, l32)
+        lp = dist.log_prob(a32)
+        out.check(lp.dtype == th.float32, f"oracle-{name}-float32-dtype", "log_prob of float32 parameters is not float32")
+        out.oracle(f"{name}-float32-logprob", f([float(np.float32(0.1)), 0.5]), float(lp[0]), rel=1e-5)
+
+
 def run_statistics(out, seed):
     """samples follow the density: 6-sigma moment / frequency tests on fixed configurations"""
     th, D = _imports()
@@ -988,6 +1061,9 @@ def run_cases(cases):
 def main():
     chk = Check("C14", groups=["dist"])
     chk.build_props()
+    from harness import covtrace
+
+    _cov = covtrace.start({"stable_baselines3/common/distributions.py": None}) if covtrace.enabled() else None
     n_cases = 56 if chk.tier == "quick" else 420
     Out.ROW_CAP = 2 if chk.tier == "quick" else 4
     Out.HEAVY_CAP = 1 if chk.tier == "quick" else 2
@@ -1006,6 +1082,7 @@ def main():
     glob = Out({"family": "global"})
     try:
         run_integrals(glob)
+        run_api_audit(glob, chk.rng)
         run_statistics(glob, chk.seed)
     except Exception as e:
         glob.problems.append(("oracle-global-exception", f"{type(e).__name__}: {e}"))
@@ -1065,6 +1142,8 @@ def main():
         "'samples follow the density' is decided by the reparametrisation identity of the recorded torch draw and 6-sigma moment/frequency tests (20000 samples, fixed configurations)",
         "float32 saturation of tanh beyond |u| ~ 8 and actions exactly at +-1 are outside the compared range",
     ]
+    if _cov is not None:
+        chk.notes["branch_coverage"] = _cov.stop()
     return chk.finish()
 
 
